@@ -41,7 +41,7 @@ def gen_total(tier, rng):
                         except ValueError:
                             rd = None
                         if rd == base: end = now_off
-                        elif rd is not None and rd + datetime.timedelta(days=1) == base: end = now_off + 1440
+                        elif rd is not None and (base - rd).days == 1: end = now_off + 1440
                         else: status = "err"; continue
                         if end < e.a.off: status = "err"
                         else: total += end - e.a.off
